@@ -85,21 +85,32 @@ def r_reset(ctx):
     ctx.unit(qualname(reset_fn))
     # the reset routine is straight-line: no early exit, no condition
     pc = flow.path_counts(reset_fn.body, lambda n: False)
-    jumps = [x for x in flow.stmts_of(reset_fn) if isinstance(x, (ast.Return, ast.Raise, ast.If, ast.For, ast.While, ast.Try))]
+    def literal_loop(x):
+        return isinstance(x, ast.For) and isinstance(x.iter, (ast.Tuple, ast.List)) and all(isinstance(e, ast.Name) for e in x.iter.elts) and not x.orelse
+    jumps = [x for x in flow.stmts_of(reset_fn) if isinstance(x, (ast.Return, ast.Raise, ast.If, ast.While, ast.Try)) or (isinstance(x, ast.For) and not literal_loop(x))]
     ctx.ob("R-RESET", "PEP.%s::unconditional" % reset_fn.name, not jumps and set(pc) == {"next"},
            "every re-initialisation is executed on every call" if not jumps else
            "the reset routine contains `%s` (line %d): on some path class-level state survives from earlier models"
            % (norm_stmt(jumps[0])[:60], jumps[0].lineno), loc(reset_fn, jumps[0] if jumps else reset_fn))
     # what the reset routine assigns, on every path (top-level, unconditional statements)
     resets = {}
-    for st in reset_fn.body:
+
+    def note(st, binding=None):
         if isinstance(st, ast.Assign) and len(st.targets) == 1 and isinstance(st.targets[0], ast.Attribute):
             d = dotted(st.targets[0])
             if d and d.count(".") == 1:
                 cname, attr = d.split(".")
-                r = repo.resolve_name(reset_fn._module, cname)
-                if isinstance(r, ClassInfo):
-                    resets[(r.name, attr)] = st
+                names = binding.get(cname, [cname]) if binding else [cname]
+                for nm in names:
+                    r = repo.resolve_name(reset_fn._module, nm)
+                    if isinstance(r, ClassInfo):
+                        resets[(r.name, attr)] = st
+    for st in reset_fn.body:
+        if literal_loop(st) and isinstance(st.target, ast.Name):
+            for inner in st.body:
+                note(inner, {st.target.id: [e.id for e in st.iter.elts]})
+        else:
+            note(st)
     for (cname, attr), (c, v0, why) in sorted(cells.items()):
         key = "%s.%s" % (cname, attr)
         st = resets.get((cname, attr))
